@@ -8,7 +8,6 @@ import (
 	"runtime"
 	"strconv"
 	"strings"
-	"sync"
 )
 
 // ---------------------------------------------------------------------------
@@ -107,7 +106,8 @@ func (s *Sim) whoLocked() *ginfo {
 		s.gmap[id] = ng
 		return ng
 	}
-	// walk the chain of live goroutines
+	// walk the chain of live goroutines (expensive; should be rare)
+	s.stats["harness.allparents_walks"]++
 	parents := allParents()
 	cur := p
 	for depth := 0; depth < 32 && cur != 0; depth++ {
@@ -196,7 +196,6 @@ type lockReq struct {
 	// after unlock / at a point
 	parked  bool
 	parkKey string
-	zreal   bool // holds the real mutex on behalf of a pre-zombie grant
 }
 
 func (r *lockReq) key() string {
@@ -223,20 +222,11 @@ type simLock struct {
 	readers []*lockReq
 	held    map[uint64]*lockReq // goid -> request currently held by that goroutine
 	seq     int
-
-	zombie bool
-	real   sync.RWMutex // used in zombie (pass-through) mode
-	zheld  sync.Map     // goid -> mode held through `real`
 }
 
 func (l *simLock) acquire(mode lockMode) {
 	s := l.sim
 	s.mu.Lock()
-	if l.zombie {
-		s.mu.Unlock()
-		l.zacquire(mode)
-		return
-	}
 	g := s.whoLocked()
 	l.seq++
 	r := &lockReq{inst: l.inst, role: roleOfCaller(), conn: g.conn, mode: mode,
@@ -245,25 +235,9 @@ func (l *simLock) acquire(mode lockMode) {
 	gid := curGoid()
 	s.mu.Unlock()
 	<-r.ch
-	// granted (or released into zombie mode)
 	s.mu.Lock()
-	z := l.zombie && !r.granted
-	if !z {
-		l.held[gid] = r
-	}
+	l.held[gid] = r
 	s.mu.Unlock()
-	if z {
-		l.zacquire(mode)
-	}
-}
-
-func (l *simLock) zacquire(mode lockMode) {
-	if mode == modeW {
-		l.real.Lock()
-	} else {
-		l.real.RLock()
-	}
-	l.zheld.Store(curGoid(), mode)
 }
 
 func (l *simLock) release(mode lockMode) {
@@ -272,20 +246,8 @@ func (l *simLock) release(mode lockMode) {
 	s.mu.Lock()
 	r := l.held[gid]
 	if r == nil {
-		// held through the real mutex (zombie), or a harness bug
 		s.mu.Unlock()
-		if m, ok := l.zheld.LoadAndDelete(gid); ok {
-			if m.(lockMode) == modeW {
-				l.real.Unlock()
-			} else {
-				l.real.RUnlock()
-			}
-			return
-		}
-		if !l.zombie {
-			panic("verif: unlock of a lock not held by this goroutine")
-		}
-		return
+		panic("verif: unlock of a lock not held by this goroutine")
 	}
 	delete(l.held, gid)
 	if r.mode != mode {
@@ -303,17 +265,6 @@ func (l *simLock) release(mode lockMode) {
 		}
 	}
 	l.inst.onUnlock(r)
-	if l.zombie {
-		s.mu.Unlock()
-		if r.zreal {
-			if mode == modeW {
-				l.real.Unlock()
-			} else {
-				l.real.RUnlock()
-			}
-		}
-		return
-	}
 	// yield after unlock: park until the scheduler resumes this goroutine
 	r.parked = true
 	r.parkKey = "unlock"
@@ -334,10 +285,6 @@ func (l *simLock) RUnlock()         { l.release(modeR) }
 func (l *simLock) point(name string) {
 	s := l.sim
 	s.mu.Lock()
-	if l.zombie {
-		s.mu.Unlock()
-		return
-	}
 	g := s.whoLocked()
 	r := &lockReq{inst: l.inst, role: "point:" + name, conn: g.conn, arrival: s.step,
 		ch: make(chan struct{}), parked: true, parkKey: name}
@@ -354,13 +301,16 @@ func (l *simLock) point(name string) {
 // actionsLocked lists grant/resume actions; sim.mu held.
 func (l *simLock) actionsLocked() []action {
 	var acts []action
-	if l.zombie {
-		return nil
-	}
+	// A webhook sender sleeps 0.5 s between retries while holding its hook's
+	// mutex; a write that signals that hook would block on a plain mutex for
+	// that long, which a synctest bubble cannot wait out. Exclusive grants
+	// are therefore held back until no hook mutex is held (the write happens
+	// at the end of the stall instead of stalling inside it).
+	gate := l.inst.hookMutexHeld()
 	for _, r := range l.pending {
 		r := r
 		ok := l.writer == nil && (r.mode == modeR || len(l.readers) == 0)
-		if !ok {
+		if !ok || (gate && r.mode == modeW) {
 			continue
 		}
 		acts = append(acts, action{kind: akGrant, key: r.key(), run: func() { l.grant(r) }})
@@ -404,34 +354,6 @@ func (l *simLock) resume(r *lockReq) {
 	r.parked = false
 	s.mu.Unlock()
 	close(r.ch)
-}
-
-// goZombie switches to pass-through mode and releases every parked goroutine.
-// sim.mu must NOT be held.
-func (l *simLock) goZombie() {
-	s := l.sim
-	s.mu.Lock()
-	l.zombie = true
-	pend := l.pending
-	park := l.parked
-	l.pending, l.parked = nil, nil
-	// goroutines that currently hold the simulated lock keep holding it: take
-	// the real mutex on their behalf so released waiters cannot overlap them.
-	if l.writer != nil {
-		l.real.Lock()
-		l.writer.zreal = true
-	}
-	for _, r := range l.readers {
-		l.real.RLock()
-		r.zreal = true
-	}
-	s.mu.Unlock()
-	for _, r := range pend {
-		close(r.ch)
-	}
-	for _, r := range park {
-		close(r.ch)
-	}
 }
 
 func (l *simLock) idle() bool {
